@@ -153,7 +153,7 @@ def iso_req(q, rng, keys, fail=""):
     r = call_for(m, ["own", "pa", "pb", "pc"], 4)
     if m == "em" and not keys:
         r.update(via="emMulti")
-    r.update(q=q, keys=keys, fail=fail)
+    r.update(q=q, keys=keys, fail=fail, noret=rng.random() < 0.2)
     return r
 
 
